@@ -22,7 +22,7 @@ from ..core import Report, MachineryError
 ABIS = ["x64-elf", "x64-pe", "ia32-pe", "arm64-elf", "mips32-elf"]
 # exhaustive configs per tier: (cfg, timeout, ABIs the cases name)
 GEN = {"quick": [("CfiEval_q.cfg", 400, ABIS), ("CfiEval_deep_q.cfg", 400, ["x64-elf", "mips32-elf"])],
-       "thorough": [("CfiEval_t.cfg", 3000, ABIS), ("CfiEval_deep_t.cfg", 3000, ["x64-elf", "mips32-elf"])]}
+       "thorough": [("CfiEval_t.cfg", 3000, ABIS), ("CfiEval_deep_t.cfg", 3000, ["x64-elf"])]}
 SIM = {"quick": 50, "thorough": 1000}             # simulated behaviours per worker (4 workers, 12 tokens)
 WORKERS = int(os.environ.get("VERIF_TLC_WORKERS", "12"))
 JOBS = int(os.environ.get("VERIF_TLC_JOBS", "16"))
